@@ -89,7 +89,7 @@ func vfC15GenAnno(t *rapid.T) vfC15AnnoScenario {
 	return s
 }
 
-func vfC15RunAnno(c *vt.Ctx, s vfC15AnnoScenario) {
+func vfC15RunAnno(c g.Sink, s vfC15AnnoScenario) {
 	c.Label("kind:" + s.Kind)
 	anno := map[string]string{}
 	if s.Networks != nil {
@@ -152,5 +152,5 @@ func vfC15RunAnno(c *vt.Ctx, s vfC15AnnoScenario) {
 }
 
 func TestVerifC15PodNetworksAnnotation(t *testing.T) {
-	vt.Run(t, vfC15GenAnno, g.NoPanic(vfC15RunAnno))
+	vt.Run(t, vfC15GenAnno, g.NoPanic(g.Adapt(vfC15RunAnno)))
 }
